@@ -5,11 +5,11 @@ import json, subprocess
 SEQ = "explicit-state exploration of operation/completion/drop histories on the real code against a simulated io_uring kernel (seqx)"
 SCH = "preemption-bounded exhaustive schedule exploration of real threads on the real code (schx, baton-passing scheduler at lock/atomic/syscall hooks)"
 CLAIMED = {
-    "C01": dict(technique=SEQ + "; oracle: tracking allocator x kernel-side memory footprints",
-                text="Bounded exhaustive exploration of every history over {poll, re-poll, drop future, Ring::poll, kernel consumes, kernel completes with each outcome incl. EINTR/ECANCELED, cancel wins/loses} for ~50 operation shapes (alone and in pairs) on the real a10 code; at every free and at every kernel access the tracking allocator and the simulated kernel's footprint table are compared (use-after-free, state freed in flight, inputs changed).",
+    "C01": dict(technique=SEQ + " plus " + SCH + "; oracle: tracking allocator x kernel-side memory footprints", engine="seqx+schx",
+                text="Bounded exhaustive exploration of every history over {poll, re-poll, drop future, Ring::poll, kernel consumes, kernel completes with each outcome incl. EINTR/ECANCELED, cancel wins/loses} for ~70 operation shapes (alone and in pairs; incl. signal iterators, readiness streams, composites, splice, advise, allocate), plus task/ring/kernel threads under every schedule up to the preemption bound with futures dropped mid-flight on the real a10 code; at every free and at every kernel access the tracking allocator and the simulated kernel's footprint table are compared (use-after-free, state freed in flight, inputs changed).",
                 ref="6/C01"),
-    "C02": dict(technique=SEQ + "; reference-model oracle per operation",
-                text="Bounded exhaustive exploration: every history over {create, poll (same/fresh waker), Ring::poll, kernel completes request i with outcome o} up to the stated depth/deviation bounds is executed on the real a10 code against the simulated kernel; every poll result is compared with a per-operation FIFO reference model of what the kernel posted for that submission.",
+    "C02": dict(technique=SEQ + " plus " + SCH + "; reference-model oracle per operation", engine="seqx+schx",
+                text="Bounded exhaustive exploration: every history over {create, poll (same/fresh waker), Ring::poll, kernel completes request i with outcome o} up to the stated depth/deviation bounds is executed on the real a10 code against the simulated kernel; every poll result is compared with a per-operation FIFO reference model of what the kernel posted for that submission (single-shot, two-step, multishot, re-arming iterators). Threads: each task polls its operation on its own thread while a ring thread polls and one kernel actor per task posts its scripted completions at any scheduling point; every schedule up to the preemption bound, same value oracle.",
                 ref="6/C02"),
     "C03": dict(technique=SEQ + " plus " + SCH + "; oracle: waker log at every Ring::poll return / deadlock = lost wake-up",
                 text="Sequential: all histories of polls (same/fresh waker), drops, completions and Ring::poll for SQ sizes 1,2,4 with 1-3 operations; after every Ring::poll the waker of every pending operation whose completion was consumed, and of futures waiting for a submission slot, must have fired. Threads: task thread(s) and ring thread under every schedule up to the preemption bound; a task that is never woken although a later complete Ring::poll consumed its completion / returned with room is a violation.",
@@ -17,14 +17,14 @@ CLAIMED = {
     "C04": dict(technique=SCH + " plus " + SEQ + " over initial counter values incl. 2^32 wrap",
                 text="Threads: 2-3 submitter threads and a consumer (Ring::poll thread or sq-thread actor) on SQ sizes 1-2 with counters starting at 0 and 2^32-k, all schedules up to the preemption bound; the simulated kernel checks every consumed entry (no overrun, none consumed twice, none lost: every accepted operation resolves with its own result). Sequential: all submit/consume/complete histories for SQ sizes 1,2,4 and 7 initial counter values.",
                 ref="6/C04", engine="schx+seqx"),
-    "C05": dict(technique=SEQ + " with adversarial completion-queue contents (canary scribbling, bookkeeping CQEs, counter wrap)",
-                text="All batchings of operation and bookkeeping completions (user_data 0-3, CQE_F_SKIP padding) for CQ sizes 2,4 and 7 initial counter values; free CQ slots are overwritten with a canary operation's user_data before every Ring::poll; the per-operation FIFO model, 'canary never resolves' and 'CQ drained, head==tail after Ring::poll' are checked on every history.",
+    "C05": dict(technique=SEQ + " plus " + SCH + ", both with adversarial completion-queue contents (canary scribbling, bookkeeping CQEs, counter wrap)", engine="seqx+schx",
+                text="All batchings of operation and bookkeeping completions (user_data 0-3, CQE_F_SKIP padding) for CQ sizes 2,4 and 7 initial counter values; free CQ slots are overwritten with a canary operation's user_data before every Ring::poll; the per-operation FIFO model, 'canary never resolves' and 'CQ drained, head==tail after Ring::poll' are checked on every history. Threads: the same with task threads, a ring thread, kernel actors posting completions and an actor overwriting every free CQ slot with a stale canary entry at any scheduling point (one scheduling point before each CQE read), counters starting at 0 and 2^32-2.",
                 ref="6/C05"),
-    "C06": dict(technique=SEQ + "; oracle: ASYNC_CANCEL requests seen by the kernel vs. drop history, tracking allocator for leaks/double frees",
+    "C06": dict(engine="seqx+schx", technique=SEQ + " plus " + SCH + "; oracle: ASYNC_CANCEL requests seen by the kernel vs. drop history, tracking allocator for leaks/double frees",
                 text="All histories with drops at every point of the life cycle of single-shot, two-step and multishot operations (alone and in pairs, SQ full and not full), both outcomes of the cancel race; every ASYNC_CANCEL must target exactly a dropped in-flight operation, and after the epilogue every allocation made by a10 must have been freed exactly once.",
                 ref="6/C06"),
     "C07": dict(technique=SEQ + "; oracle: simulated kernel's descriptor table plus close(2) interposer",
-                text="All histories of descriptor-creating operations (open, socket, accept, multishot accept, pipe, to_direct; regular and direct), drops of the futures, of the returned AsyncFds (queue full and not full), AsyncFd::close, and standard stream handles; at the end every descriptor the kernel issued must have been closed exactly once in the way matching its kind, and fds 0-2 never.",
+                text="All histories of descriptor-creating operations (open, O_TMPFILE open, socket, accept and multishot accept on regular and on direct listening descriptors, pipe, to_direct; regular and direct), drops of the futures, of the returned AsyncFds (queue full and not full), AsyncFd::close, and standard stream handles; at the end every descriptor the kernel issued must have been closed exactly once in the way matching its kind, and fds 0-2 never.",
                 ref="6/C07"),
     "C08": dict(technique=SEQ + " plus " + SCH + "; oracle: multiset conservation of pool buffer ids across kernel ring / pending completions / live ReadBufs",
                 text="Sequential: all histories of single-shot and multishot pool reads/receives, completions with and without buffers, -ENOBUFS, drops of operations in flight, and drops of the handed-out ReadBufs for pool sizes 1,2,4, buffer sizes 1 and 8, with the 16-bit ring tail starting at 0 and just below 2^16 (wrap inside the history); after every action the buffer ids offered in the kernel's ring, selected for undelivered completions and owned by live ReadBufs must partition the pool, ring entries must describe their buffer, and ReadBuf contents must be what the kernel wrote. Threads: 2-3 threads dropping ReadBufs concurrently (optionally while the kernel keeps selecting buffers), all schedules up to the preemption bound.",
@@ -39,10 +39,10 @@ CLAIMED = {
                 text="Poller thread (poll(None), poll(0);poll(None), poll(None);poll(None), with or without completions already published) and 1-2 waker threads on default, kernel-thread, single-issuer and defer-taskrun rings, all schedules up to the preemption bound including the sq-thread going idle; wake() after the Ring is dropped.",
                 ref="6/C11", engine="schx"),
     "C12": dict(technique="explicit-state exploration of every drop order of the objects of each scenario on the real code (seqx); oracles: mmap/munmap/close interposer, simulated kernel descriptor table, tracking allocator",
-                text="~80 scenarios (operations not started / queued / in flight / abandoned / finished-unpolled / mid-stream, queue clone, regular and direct AsyncFd, pool, owned and unassigned ReadBuf; kernel cancelling everything, failing to cancel, cancelling nothing) x every permutation of dropping those objects that safe Rust admits; checked: no panic/crash, no use of freed memory, the three ring mappings unmapped exactly once with their original lengths before the ring fd is closed, queued clean-up requests submitted, every descriptor closed once, no allocation left.",
+                text="~140 scenarios (queue sizes 8, 2 and 1; operations not started / queued / in flight / abandoned / finished-unpolled / mid-stream, queue clone, regular and direct AsyncFd, pool, owned and unassigned ReadBuf; kernel cancelling everything, failing to cancel, cancelling nothing) x every permutation of dropping those objects that safe Rust admits; checked: no panic/crash, no use of freed memory, the three ring mappings unmapped exactly once with their original lengths before the ring fd is closed, queued clean-up requests submitted, every descriptor closed once, no allocation left.",
                 ref="6/C12"),
     "C13": dict(technique="bounded exhaustive enumeration: submissions decoded by a simulated kernel compared with an io_uring ABI table and regular-vs-direct differential, plus differential execution against the real kernel with libc as oracle (casex)",
-                text="Part A (simulated kernel): 37 operation shapes each issued on a regular and on a direct descriptor; every field of the two submissions must agree except the descriptor field/flag, and must equal an independent ABI table; builder settings made before the first poll (offsets incl. 2^40 and 2^64-2, every send/recv flag, open options x mode x kind, advice, allocate mode, truncate length, shutdown mode ...) must be reflected. Part B (real kernel): 16 scenarios x {regular, direct}: the a10 call on a real ring and the libc call on an identical fixture are compared on result/errno, bytes at offsets, file position, stat fields, addresses and option values.",
+                text="Part A (simulated kernel): 43 operation shapes each issued on a regular and on a direct descriptor; every field of the two submissions must agree except the descriptor field/flag, and must equal an independent ABI table; builder settings made before the first poll (offsets incl. 2^40 and 2^64-2, every send/recv flag, open options x mode x kind, advice, allocate mode, truncate length, shutdown mode ...) must be reflected. Part B (real kernel): 16 scenarios x {regular, direct}: the a10 call on a real ring and the libc call on an identical fixture are compared on result/errno, bytes at offsets, file position, stat fields, addresses and option values.",
                 ref="6/C13", category="exploration", engine="casex",
                 note="Trusted base: the Linux kernel of this sandbox (6.18) and libc as the oracle for part B; the ABI table in harness/src/c13.rs for part A. Exhaustive over the stated argument alphabets only."),
     "C14": dict(technique="bounded exhaustive enumeration of inputs against an independent reference (casex)",
